@@ -72,6 +72,7 @@ def loneExit : Stmts → Bool
 
 /-- statements behind which control does not go on -/
 def endsStmt : Stmt → Bool
+  | .op n _ => Gen.opsEndFlow.contains n
   | .ret => true
   | .end_ => true
   | .hold => true
@@ -87,6 +88,27 @@ def endsFlowStmts : Stmts → Bool
   | .cons s .nil => endsStmt s
   | .cons _ r => endsFlowStmts r
 
+/-- statements whose collected code lets control run on behind it in the eyes of `SwitchBlockCompileHandler._falls_through`,
+whatever stands before it: its last item is a real op that does not end the control flow (an operation, an operation under a
+context, `call`, the test of a `while` / `for`), or a user label, or a label that a jump of the code goes to (`while not`,
+an if without else) -/
+def surelyFalls : Stmt → Bool
+  | .op n _ => !Gen.opsEndFlow.contains n
+  | .inl _ _ n _ => !Gen.opsEndFlow.contains n
+  | .with_ _ _ (.op n _) => !Gen.opsEndFlow.contains n
+  | .call _ => true
+  | .label _ => true
+  | .while_ neg h _ => neg || !Gen.opsEndFlow.contains h.name
+  | .for_ _ h _ _ => !Gen.opsEndFlow.contains h.name
+  | .ite _ _ _ _ hasElse _ => !hasElse
+  | _ => false
+
+/-- the last statement of the block is one of those -/
+def surelyFallsStmts : Stmts → Bool
+  | .nil => false
+  | .cons s .nil => surelyFalls s
+  | .cons _ r => surelyFallsStmts r
+
 /-- `CaseValue` under `SwitchScenario` is collected as `CaseScenario` -/
 def caseName (sw name : String) : String :=
   if sw == Gen.op_switch_scenario && name == Gen.op_case_value then Gen.op_case_scenario else name
@@ -100,8 +122,9 @@ mutual
 empty blocks (F1); from level 2 on `forever` / `while` / `for` with `continue` and `break_loop` (F2; the init and increment
 statements of `for` are F0 statements); from level 3 on `switch` with `case` / `default` / `break`, fall-through and
 cases sharing a block (F3; not: a header op that ends the routine; a case block that is a single `break` / `continue` /
-`break_loop` / `jump` — `_process_block` may fold it into the header jumps — only if nothing can fall into it: it is the first
-block of the switch, or the block before it ends in `return` / `end` / `hold` / `break` / `continue` / `break_loop` / `jump`;
+`break_loop` / `jump` — `_process_block` folds it into the header jumps unless `_falls_through(case_ops)` — only if the proof knows
+what `_falls_through` answers: it is the first block of the switch, or the block before it ends in `return` / `end` / `hold` /
+`break` / `continue` / `break_loop` / `jump` (nothing falls in), or in a statement of `surelyFalls` (not folded);
 `nf` of `cgCases`); from level 4 on user labels,
 `jump @l` and `call @l` anywhere (F4); from level 5 on macro calls (F5) -/
 def cgStmt (lv : Nat) : Stmt → Bool
@@ -133,7 +156,7 @@ def cgElifs (lv : Nat) : Elifs → Bool
 def cgCases (lv : Nat) (sw : String) (nf : Bool) : Cases → Bool
   | .nil => true
   | .cons d name _ body r => (d || (isTest name && isTest (caseName sw name))) && (d || !loneExit body || nf) && cgStmts lv body &&
-      cgCases lv sw (if body.isNil then nf else endsFlowStmts body) r
+      cgCases lv sw (if body.isNil then nf else (endsFlowStmts body || surelyFallsStmts body)) r
 end
 
 mutual
